@@ -30,6 +30,35 @@ _EXTRA_HIERARCHY = {
 }
 
 
+_BASE_HIERARCHY = dict(_EXTRA_HIERARCHY)
+
+
+def register_package_exceptions(prog: Program) -> list[str]:
+    """The exception classes the analysed tree itself defines, with the base each one names *in that tree*
+    (a class moved under LookupError is caught by `except LookupError`).  Resets what an earlier tree registered."""
+    _EXTRA_HIERARCHY.clear()
+    _EXTRA_HIERARCHY.update(_BASE_HIERARCHY)
+    found: dict[str, str] = {}
+    for ci in prog.classes.values():
+        for b in ci.node.bases:
+            r = prog.resolve_dotted(ci.module, b) or ""
+            base = r.rsplit(".", 1)[-1] if r else ""
+            if base:
+                found.setdefault(ci.name, base)
+                break
+    log = []
+    changed = True
+    known = lambda n: n in _EXTRA_HIERARCHY or (isinstance(getattr(builtins, n, None), type) and issubclass(getattr(builtins, n), BaseException))  # noqa: E731
+    while changed:
+        changed = False
+        for name, base in found.items():
+            if known(base) and _EXTRA_HIERARCHY.get(name) != base and not (name in _BASE_HIERARCHY and name in ("CancelledError", "FuturesCancelledError", "InvalidStateError", "QueueEmpty")):
+                _EXTRA_HIERARCHY[name] = base
+                log.append(f"{name}({base})")
+                changed = True
+    return log
+
+
 def exc_is_sub(a: str, b: str) -> bool:
     """issubclass(a, b) over builtin exception names (+ a few asyncio / repo ones)."""
     if a == b or b == "BaseException":
@@ -210,6 +239,7 @@ class CFG:
             entry, ends = f.build(key[0])
             f.copies[key] = entry
             if key[0] == "exc":
+                entry.meta["pending"] = key[1]  # the exception classes that may be propagating through this cleanup
                 # the pending exception continues to propagate after the cleanup completed normally
                 rr = self._new("reraise", None, self._cur_stmt, "propagate")
                 rr.raises = key[1]
